@@ -307,6 +307,12 @@ func genTLSTokens(repo string) (string, error) {
 		ok = false
 	}
 	fmt.Fprintf(&b, "Definition tls_ca_pool_cached : bool := %v.\n", poolCached)
+	resumeVerifies, rok, rnote := resumeVerifiesSwitch(repo)
+	if !rok {
+		ok = false
+	}
+	fmt.Fprintf(&b, "(* %s *)\n", rnote)
+	fmt.Fprintf(&b, "Definition tls_resume_verifies : bool := %v.\n", resumeVerifies)
 	fmt.Fprintf(&b, "Definition TLSTokens_translator_ok := %v.\n", ok)
 	return b.String(), nil
 }
@@ -321,6 +327,93 @@ func exprString(e ast.Expr) string {
 	return "?"
 }
 
+// resumeVerifiesSwitch reads pkg/mtls/crypto/tls: processCertsFromClient verifies the chain it is given whatever its origin -
+// it has the certificate as its ONLY parameter, the x509 verification (certs[0].Verify) is guarded by exactly
+// `c.config.ClientAuth >= VerifyClientCertIfGiven && len(certs) > 0`, no return statement precedes that guard except inside
+// the parse loop / the "didn't provide a certificate" check, and both resumption paths (doResumeHandshake, TLS 1.3
+// checkForResumption) hand the chain of the ticket to it and return its error.
+func resumeVerifiesSwitch(repo string) (verifies, ok bool, note string) {
+	fset, f, err := ParseGoFile(repo, "pkg/mtls/crypto/tls/handshake_server.go")
+	if err != nil {
+		return false, false, "handshake_server.go not parsed"
+	}
+	_ = fset
+	fd := FindFunc(f, "Conn", "processCertsFromClient")
+	if fd == nil {
+		return false, false, "processCertsFromClient not found"
+	}
+	nparams := 0
+	for _, p := range fd.Type.Params.List {
+		if len(p.Names) == 0 {
+			nparams++
+		}
+		nparams += len(p.Names)
+	}
+	guard := ""
+	guardTop := false
+	for _, st := range fd.Body.List {
+		is, isi := st.(*ast.IfStmt)
+		if !isi {
+			continue
+		}
+		has := false
+		ast.Inspect(is.Body, func(n ast.Node) bool {
+			if c, isc := n.(*ast.CallExpr); isc && exprFull(c.Fun) == "certs[0].Verify" {
+				has = true
+			}
+			return true
+		})
+		if has {
+			guard, guardTop = exprFull(is.Cond), true
+		}
+	}
+	callsIn := func(file *ast.File, recv, fn string) (int, bool) {
+		d := FindFunc(file, recv, fn)
+		if d == nil {
+			return 0, false
+		}
+		n, returned := 0, true
+		ast.Inspect(d.Body, func(x ast.Node) bool {
+			is, isi := x.(*ast.IfStmt)
+			if !isi || is.Init == nil {
+				return true
+			}
+			as, isa := is.Init.(*ast.AssignStmt)
+			if !isa || len(as.Rhs) != 1 {
+				return true
+			}
+			c, isc := as.Rhs[0].(*ast.CallExpr)
+			if !isc || exprFull(c.Fun) != "c.processCertsFromClient" {
+				return true
+			}
+			n++
+			ret := false
+			for _, b := range is.Body.List {
+				if r, isr := b.(*ast.ReturnStmt); isr && len(r.Results) == 1 && exprFull(r.Results[0]) == "err" {
+					ret = true
+				}
+			}
+			if !ret {
+				returned = false
+			}
+			return true
+		})
+		return n, returned
+	}
+	n12, r12 := callsIn(f, "serverHandshakeState", "doResumeHandshake")
+	_, f13, err := ParseGoFile(repo, "pkg/mtls/crypto/tls/handshake_server_tls13.go")
+	if err != nil {
+		return false, false, "handshake_server_tls13.go not parsed"
+	}
+	n13, r13 := callsIn(f13, "serverHandshakeStateTLS13", "checkForResumption")
+	note = fmt.Sprintf("processCertsFromClient: %d argument(s), verification guard `%s`; calls returning the error: doResumeHandshake %d/%v, TLS1.3 checkForResumption %d/%v", nparams, guard, n12, r12, n13, r13)
+	if !guardTop {
+		return false, false, note
+	}
+	verifies = nparams == 1 && guard == "c.config.ClientAuth >= VerifyClientCertIfGiven && len(certs) > 0" && n12 == 1 && r12 && n13 == 1 && r13
+	return verifies, true, note
+}
+
 // exprFull is exprString plus dereference, calls and constant indexes.
 func exprFull(e ast.Expr) string {
 	switch x := e.(type) {
@@ -331,7 +424,11 @@ func exprFull(e ast.Expr) string {
 	case *ast.StarExpr:
 		return "*" + exprFull(x.X)
 	case *ast.ParenExpr:
-		return exprFull(x.X)
+		return "(" + exprFull(x.X) + ")"
+	case *ast.BinaryExpr:
+		return exprFull(x.X) + " " + x.Op.String() + " " + exprFull(x.Y)
+	case *ast.UnaryExpr:
+		return x.Op.String() + exprFull(x.X)
 	case *ast.BasicLit:
 		return x.Value
 	case *ast.IndexExpr:
